@@ -163,6 +163,13 @@ func genC09(rt *rapid.T) BatchSc {
 	b := c09Case(n, c, mode, budget, f, g, rapid.Bool().Draw(rt, "fb"), sched)
 	b.PrepForm = rapid.SampledFrom([]int{PFResults, PFAnySlice, PFIntSlice, PFResultsCN}).Draw(rt, "form")
 	b.ExecAny = rapid.Bool().Draw(rt, "execany")
+	// the failing items fail with any error flavour (incl. errors that wrap a context error although
+	// the run's context is alive, non-comparable and net.Error-like ones): a failure is a failure
+	for i := range b.Items {
+		if b.Items[i].Exec[0].Err != 0 {
+			b.Items[i].Exec[0].Err = errFlavors[uniform(rt, len(errFlavors), "flavor")]
+		}
+	}
 	if b.HasFb {
 		// fallback sometimes rescues the item (then it is not a failure at all)
 		for i := range b.Items {
